@@ -1,5 +1,7 @@
 From AQ Require Import lib.Base gen.C13Consts model.Builder model.Amplification
   proofs.BuilderProofs proofs.BuilderPadding proofs.BuilderPadding2 proofs.AmplificationProofs.
+From AQ Require gen.C13Writers model.Writers proofs.BuilderFlight proofs.WritersBase proofs.WritersFrames proofs.WritersProofs
+  proofs.WritersCorollaries proofs.WritersFlight proofs.FlightBudget model.RecBase model.Recovery proofs.RecoveryProofs.
 
 (* every flushed datagram <= max_datagram_size: all configurations, all op sequences (API misuse included) *)
 Theorem datagram_le_max :
@@ -55,3 +57,85 @@ Theorem initial_padded_1200_refuted :
     exists d, In d (g_log (fst (run c (init_st c 0) ops))) /\ d_init d = true /\ d_len d = 55.
 Proof. exact initial_padded_refuted. Qed.
 Print Assumptions initial_padded_1200_refuted.
+
+(* ---------- the callers of the builder: connection.py's frame writers, _write_handshake, _write_application and the
+   builder part of datagrams_to_send (model/Writers.v; frame types, capacities and push sequences generated from the source
+   by tools/gen/c13_writers.py).  dts_trace c pn d = the builder op history of one datagrams_to_send call with decision
+   inputs d (which frames are pending, their field values, the C10 stream senders get_frame is called on);
+   dts_ok d = the field values are in their wire ranges (varints < 2^62, connection ids <= 20 bytes, senders reachable
+   by a legitimate C10 history and not reset). ---------- *)
+
+(* the caller discipline is a theorem of the writer model: every start_frame is inside an open packet with a capacity that
+   covers its type, every push follows a start_frame and fits remaining_buffer_space -- in particular no writer pushes
+   more than the capacity it declared (or, CRYPTO / STREAM, more than the space it measured) *)
+Theorem writers_disciplined :
+  forall (c : cfg) (pn : Z) (d : Writers.dts_in),
+    WritersProofs.dts_ok d -> disciplined c (init_st c pn) (Writers.dts_trace c pn d) = true.
+Proof. exact WritersProofs.writers_disciplined_all. Qed.
+Print Assumptions writers_disciplined.
+
+(* ... and C08's three flight clauses hold as well, provided no packet of _write_application carries a PATH_CHALLENGE
+   before an ACK (dts_ackfirst) *)
+Theorem writers_flight_disciplined :
+  forall (c : cfg) (pn : Z) (d : Writers.dts_in),
+    WritersProofs.dts_ok d -> WritersProofs.dts_ackfirst d ->
+    BuilderFlight.fl_disciplined c (init_st c pn) (Writers.dts_trace c pn d) = true.
+Proof. exact WritersProofs.writers_flight_disciplined_all. Qed.
+Print Assumptions writers_flight_disciplined.
+
+(* without that proviso the flight discipline fails: _write_application writes PATH_CHALLENGE before ACK; with
+   max_flight_bytes = 36 the packet PATH_CHALLENGE + ACK is 49 bytes, in flight and ack-eliciting (candidate finding F14) *)
+Theorem writers_flight_refuted :
+  exists (c : cfg) (d : Writers.dts_in) (mf : Z),
+    c_max_flight c = Some mf /\ wf_cfg c /\ crypto_fits c /\ WritersProofs.dts_ok d /\
+    disciplined c (init_st c 0) (Writers.dts_trace c 0 d) = true /\
+    BuilderFlight.fl_disciplined c (init_st c 0) (Writers.dts_trace c 0 d) = false /\
+    snd (BuilderFlight.run_pk c (init_st c 0) (Writers.dts_trace c 0 d)) = [(PT_ONE_RTT, 49, true, true, false, 0)] /\
+    mf = 36.
+Proof. exact WritersCorollaries.writers_flight_refuted_w. Qed.
+Print Assumptions writers_flight_refuted.
+
+(* the C13 statements for op histories generated by the writer model: no discipline hypothesis left *)
+Theorem datagram_le_max_connection :
+  forall (c : cfg) (pn : Z) (d : Writers.dts_in),
+    Forall (fun n => n <= c_mds c) (snd (run c (init_st c pn) (Writers.dts_trace c pn d))).
+Proof. exact WritersCorollaries.datagram_le_max_conn. Qed.
+Print Assumptions datagram_le_max_connection.
+
+Theorem total_le_budget_connection :
+  forall (c : cfg) (mt pn : Z) (d : Writers.dts_in),
+    c_max_total c = Some mt -> wf_cfg c -> crypto_fits c -> WritersProofs.dts_ok d ->
+    zsum (snd (run c (init_st c pn) (Writers.dts_trace c pn d))) <= Z.max 0 mt.
+Proof. exact WritersCorollaries.total_le_budget_conn. Qed.
+Print Assumptions total_le_budget_connection.
+
+(* sent <= 3 * received on every unvalidated path, over all histories of receive / datagrams_to_send (normal branch,
+   decisions in range) / terminate *)
+Theorem amplification_bound_connection :
+  forall (a : acfg) (l : list WritersCorollaries.cop) (s : ast),
+    wf_acfg a -> Forall P (as_paths s) -> Forall WritersCorollaries.cop_ok l ->
+    Forall P (as_paths (arun a s (WritersCorollaries.to_aops a s l))).
+Proof. exact WritersCorollaries.amplification_bound_conn. Qed.
+Print Assumptions amplification_bound_connection.
+
+(* C08 flight budget, builder level: all in-flight packets of one datagrams_to_send call <= max(0, max_flight_bytes) *)
+Theorem flight_le_budget_connection :
+  forall (c : cfg) (mf pn : Z) (d : Writers.dts_in),
+    c_max_flight c = Some mf -> wf_cfg c -> crypto_fits c -> WritersProofs.dts_ok d -> WritersProofs.dts_ackfirst d ->
+    BuilderFlight.fl_sum (snd (BuilderFlight.run_pk c (init_st c pn) (Writers.dts_trace c pn d))) +
+    BuilderFlight.fl_sum (b_pkts (fst (BuilderFlight.run_pk c (init_st c pn) (Writers.dts_trace c pn d)))) <= Z.max 0 mf.
+Proof. exact WritersCorollaries.flight_le_budget_conn. Qed.
+Print Assumptions flight_le_budget_connection.
+
+(* ... composed with on_packet_sent for any recovery state and any controller satisfying cc_spec (C08's flight_budget) *)
+Theorem flight_budget_connection :
+  forall (T C : Type) (cc : RecBase.ccops T C), RecoveryProofs.cc_spec cc ->
+  forall (st : Recovery.rec (T:=T) (C:=C)) sp now c mf pn d,
+  (forall t, (sp t < length (Recovery.r_spaces st))%nat) ->
+  c_max_flight c = Some mf -> wf_cfg c -> crypto_fits c -> WritersProofs.dts_ok d -> WritersProofs.dts_ackfirst d ->
+  RecBase.cc_bif cc (Recovery.r_cc (FlightBudget.register cc sp now st (FlightBudget.built c pn (Writers.dts_trace c pn d)))) =
+    RecBase.cc_bif cc (Recovery.r_cc st) + BuilderFlight.fl_sum (FlightBudget.built c pn (Writers.dts_trace c pn d)) /\
+  RecBase.cc_bif cc (Recovery.r_cc (FlightBudget.register cc sp now st (FlightBudget.built c pn (Writers.dts_trace c pn d))))
+    <= RecBase.cc_bif cc (Recovery.r_cc st) + Z.max 0 mf.
+Proof. exact WritersFlight.flight_budget_conn. Qed.
+Print Assumptions flight_budget_connection.
